@@ -58,6 +58,10 @@ func ruleDiscardedResult(keep func(string) bool) ruleFunc {
 				}
 			}
 		}
-		c.R.Floor("R1-discarded-result", n, 12)
+		floor := 12
+		if keep != nil && !keep("orb.Round") {
+			floor = 2
+		}
+		c.R.Floor("R1-discarded-result", n, floor)
 	}
 }
